@@ -375,8 +375,8 @@ func runStage(rids [][]byte, evs []ev) map[int]*inst {
 				// the recovery stage of this pipeline: the REAL recoverSign reading the channel that is registered
 				k := e.h
 				out, errc := dosnode.VerifRecoverSign(in.ctx, in.reply, suite, pub, 1, 1, quiet)
-				outClosed[k] = make(chan struct{})
-				reported[k] = make(chan struct{})
+				oc, rp := make(chan struct{}), make(chan struct{}) // locals: the goroutines below must not read the maps
+				outClosed[k], reported[k] = oc, rp
 				go func() {
 					for range errc {
 					}
@@ -392,11 +392,11 @@ func runStage(rids [][]byte, evs []ev) map[int]*inst {
 						in.got = append(in.got, got{tag: tag, rid: s.RequestId})
 						in.mu.Unlock()
 						if first {
-							close(reported[k])
+							close(rp)
 							first = false
 						}
 					}
-					close(outClosed[k])
+					close(oc)
 				}()
 			}
 			in.regs++
@@ -584,7 +584,8 @@ func runInc(rids [][]byte, evs []ev) map[int]*inst {
 				in.class = e.c
 				k := e.h
 				out, errc := dosnode.VerifRecoverSign(in.ctx, in.reply, suite, pub, 2, 2, quiet)
-				outClosed[k] = make(chan struct{})
+				oc := make(chan struct{}) // local: the goroutine below must not read the map
+				outClosed[k] = oc
 				go func() {
 					for range errc {
 					}
@@ -599,7 +600,7 @@ func runInc(rids [][]byte, evs []ev) map[int]*inst {
 						in.got = append(in.got, got{tag: cls, rid: s.RequestId})
 						in.mu.Unlock()
 					}
-					close(outClosed[k])
+					close(oc)
 				}()
 				// dispatchSign: the own share goes to the stage before the registration
 				// (in a select with the context, as dispatchSign does: the pipeline may have been cancelled already)
